@@ -920,6 +920,19 @@ def prop_consist(ctx):
             nm = t.value.id if isinstance(t, ast.Subscript) and isinstance(t.value, ast.Name) \
                 else (t.id if isinstance(t, ast.Name) else None)
             if nm in E.env:
+                if isinstance(t, ast.Subscript):
+                    # `X[:] += c` / `X[...] += c` update every interval; `X[0] += c` one of them
+                    whole = norm_text(t.slice) in (':', '...', 'Ellipsis', '::', ':, :, :',
+                                                   ':, ...', '..., :, :')
+                    if not whole:
+                        ctx.need(norm_text(t.slice).lstrip('-').isdigit() or
+                                 isinstance(t.slice, ast.Slice),
+                                 'propagate_errors: update `%s` not read' % norm_text(st)[:60])
+                        ctx.ob('PROP-CONSIST', False, None, 'the update applies to every '
+                               'interval', f=f, node=st, key='update-all-rows',
+                               why='`%s` changes the per-interval matrices of some intervals only: '
+                                   'the one-step map of the other intervals lacks the term'
+                                   % norm_text(st)[:70])
                 E.env[nm] = E.env[nm].add(E.val(st.value))
                 continue
             raise AnalysisError('propagate_errors: update `%s`' % norm_text(st)[:60])
